@@ -204,6 +204,20 @@ fn create_region(w: &mut World, t: &mut Tape, cx: &mut Cx) -> Result<Reg, String
         1 => Some(false),
         _ => None,
     };
+    if t.chance(1, 8) {
+        // a creation that has to be refused (the file is shorter than offset + size) leaves no
+        // mapping behind: nothing could ever release it
+        let f = memfd(PS as u64);
+        let off = PS as u64 * t.below(3);
+        let before = interpose::peek().len();
+        let r = MmapRegion::<()>::from_file(FileOffset::new(f, off), size + PS);
+        ensure!(r.is_err(), "a file-backed region reaching past the end of its file was created");
+        let log = interpose::peek();
+        let left = interpose::live_after(&log[before..]);
+        ensure!(left.is_empty(), "a refused creation (file of {:#x} bytes, offset {:#x}, size {:#x}) left mappings behind: {:x?}", PS, off, size + PS, left);
+        interpose::drop_tail(before);
+        cx.nt("refused_creation");
+    }
     let (mapping, owned, kname): (MmapRegion<()>, bool, &'static str) = match kind {
         0 | 1 => (MmapRegion::new(size).map_err(|e| format!("{:?}", e))?, true, "anonymous"),
         2 => {
@@ -246,7 +260,21 @@ fn create_region(w: &mut World, t: &mut Tape, cx: &mut Cx) -> Result<Reg, String
             ensure!(p != usize::MAX, "harness mmap failed");
             w.raw_maps.push((p, len));
             // SAFETY: the range is a valid mapping that outlives the region.
-            let r = unsafe { MmapRegion::build_raw(p as *mut u8, size, libc::PROT_READ | libc::PROT_WRITE, libc::MAP_PRIVATE | libc::MAP_ANONYMOUS) }.map_err(|e| format!("{:?}", e))?;
+            let r = if t.chance(1, 3) {
+                // the caller also names the file behind its mapping (builder only)
+                cx.nt("raw_region_with_file_offset");
+                unsafe {
+                    MmapRegionBuilder::new(size)
+                        .with_raw_mmap_pointer(p as *mut u8)
+                        .with_file_offset(FileOffset::new(memfd(len as u64), 0))
+                        .with_mmap_prot(libc::PROT_READ | libc::PROT_WRITE)
+                        .with_mmap_flags(libc::MAP_PRIVATE | libc::MAP_ANONYMOUS)
+                        .build()
+                }
+            } else {
+                unsafe { MmapRegion::build_raw(p as *mut u8, size, libc::PROT_READ | libc::PROT_WRITE, libc::MAP_PRIVATE | libc::MAP_ANONYMOUS) }
+            }
+            .map_err(|e| format!("{:?}", e))?;
             cx.nt("raw_region");
             (r, false, "raw")
         }
